@@ -82,7 +82,7 @@ def parseKey (st : State) (k : Key) : Except Err (Scope × Sel × String) :=
   | .none => .error .valueError            -- No configurable matching …
   | .one full e =>
     if e.cfg.isMethod && k.sel.length < 2 then .error .valueError  -- method without class name
-    else if !e.cfg.sig.mightHave k.arg then .error .valueError
+    else if !e.cfg.mightHave k.arg then .error .valueError
     else if !e.cfg.listed k.arg then .error .valueError
     else .ok (k.scope, full, k.arg)
 
@@ -120,6 +120,7 @@ structure RegReq where
   module : Option Sel      -- explicit `module=` or the object's `__module__`; none = no module
   moduleValid : Bool := true
   sig : Sig
+  innerSig : Option Sig := none   -- see `Cfgable.innerSig`
   allow : List String := []
   deny : List String := []
   listTypesOk : Bool := true
@@ -133,7 +134,7 @@ deriving Inhabited
 
 /-- the `Configurable` record a successful registration stores -/
 def RegReq.cfgable (r : RegReq) : Cfgable :=
-  { selector := (r.module.getD []) ++ r.name, sig := r.sig, allow := r.allow, deny := r.deny,
+  { selector := (r.module.getD []) ++ r.name, sig := r.sig, innerSig := r.innerSig, allow := r.allow, deny := r.deny,
     isMethod := r.isMethod }
 
 /-- a different object is already registered under the same complete name (waived in
@@ -161,7 +162,7 @@ def register (st : State) (r : RegReq) : Except Err State :=
   if st.clashes r then .error .valueError else
   if !r.allow.isEmpty && !r.deny.isEmpty then .error .valueError else
   if !r.listTypesOk then .error .typeError else
-  if !(r.allow.all r.sig.mightHave) || !(r.deny.all r.sig.mightHave) then .error .valueError else
+  if !(r.allow.all r.cfgable.mightHave) || !(r.deny.all r.cfgable.mightHave) then .error .valueError else
   if !r.cfgable.requiredKwargsValid then .error .valueError else
   .ok { st with registry := (renameMethods st.registry r.cfgable.selector r.methods).set
                   r.cfgable.selector { cfg := r.cfgable, objId := r.objId, isClass := r.isClass } }
